@@ -275,6 +275,8 @@ def stepL (c : SCfg) (s : SState) (l : Label) : SState :=
     { s with hookTaken := false }
   | .exit =>
     let s := s.inPhase [.exiting] "exit"
+    -- C10: the panic hook saved at the start is put back before `execute` returns
+    let s := if s.hookTaken then s.note .I "execute returned with the panic hook still taken (not restored)" else s
     { s with exited := true, phase := .exited }
   | .tx e =>
     let s := { s with out := s.out ++ [e] }
